@@ -36,17 +36,17 @@ PROPS = {
                 thorough=dict(runs=12000, budget_s=900, min_runs=600),
                 watchdog_s=180, spot=3),
     'C09': dict(engine='matpoint_sim',
-                quick=dict(runs=96, budget_s=150, min_runs=24),
-                thorough=dict(runs=1600, budget_s=1500, min_runs=200),
-                watchdog_s=400, spot=2),
+                quick=dict(runs=48, budget_s=200, min_runs=16),
+                thorough=dict(runs=1600, budget_s=1800, min_runs=200),
+                watchdog_s=400, spot=2, jaxcache=True),
     'C10': dict(engine='matpoint_sim',
-                quick=dict(runs=96, budget_s=150, min_runs=24),
-                thorough=dict(runs=1600, budget_s=1500, min_runs=200),
-                watchdog_s=400, spot=2),
+                quick=dict(runs=48, budget_s=200, min_runs=16),
+                thorough=dict(runs=1600, budget_s=1800, min_runs=200),
+                watchdog_s=400, spot=2, jaxcache=True),
     'C11': dict(engine='matpoint_sim',
-                quick=dict(runs=96, budget_s=150, min_runs=24),
-                thorough=dict(runs=1600, budget_s=1500, min_runs=200),
-                watchdog_s=400, spot=2),
+                quick=dict(runs=48, budget_s=200, min_runs=16),
+                thorough=dict(runs=1600, budget_s=1800, min_runs=200),
+                watchdog_s=400, spot=2, jaxcache=True),
 }
 
 
